@@ -61,6 +61,10 @@ class _NumpyFamily:
             v = env[x]
             v += env[st[2]]
             env[x] = v
+        elif op == 'augscalar':
+            v = env[x]
+            v *= (2.0 if self.f['dtype'].kind == 'f' else 2)
+            env[x] = v
         elif op == 'ufunc':
             env[x] = np.negative(env[st[2]])
         elif op == 'out':
@@ -125,7 +129,7 @@ class _ParticleFamily:
         return any(np.shares_memory(x, y) for x in a for y in b)
 
     def supports(self, st):
-        if st[0] in ('comp', 'setall', 'setitem', 'ufunc', 'out'):
+        if st[0] in ('comp', 'setall', 'setitem', 'ufunc', 'out', 'augscalar'):
             return False
         if st[0] == 'scale' and st[3] == 'r':
             return False
